@@ -65,8 +65,8 @@ func c16Unp(format string, args ...any) error {
 type c16BSStats struct {
 	tables, multiCol, rows, numbers, ranges, deltas, pvalues int
 	warnings, footnoteRefs, missingCells, geomeanRows        int
-	multiLevel, wideHeaderCells, orphanCols                   int
-	worst                                                     float64
+	multiLevel, wideHeaderCells, orphanCols                  int
+	worst                                                    float64
 }
 
 var c16BSNonTrivial sync.Map
@@ -1147,7 +1147,7 @@ func c16BSGen(r *kit.Rand, id int) c16BSCase {
 
 func TestVerifC16Benchstat(t *testing.T) {
 	kit.Run(t, "C16", kit.Class[c16BSCase]{
-		Name: "benchstat-text-vs-csv", Quick: 3000, Thorough: 100000,
+		Name: "benchstat-text-vs-csv", Quick: 3000, Thorough: 80000,
 		Gen:   c16BSGen,
 		Check: c16BSCheck,
 		NonTrivial: func(c c16BSCase) bool {
